@@ -1043,7 +1043,11 @@ def fam_stripe_resize(seed):
     oh, ow = (X.shape[1] * f, X.shape[2] * f) if not ac else ((X.shape[1] - 1) * f + 1, (X.shape[2] - 1) * f + 1)
     x = g.resize(x, kind, oh, ow, ac, hp)
     for _ in range(int(r.integers(0 if hp or w <= 4 else 1, 3))):  # without a consumer the resized map is the last (topmost) tensor of the arena
-        x = g.conv(x, int(r.choice([8, 16])), int(r.choice([1, 3, 3])), 1, int(r.choice([PAD_SAME, PAD_VALID])), int(r.choice([0, 1])))
+        k_ = int(r.choice([1, 3, 3]))
+        pad_ = int(r.choice([PAD_SAME, PAD_VALID]))
+        if min(g.T(x).shape[1:3]) < k_:
+            pad_ = PAD_SAME
+        x = g.conv(x, int(r.choice([8, 16])), k_, 1, pad_, int(r.choice([0, 1])))
     return g.finish([x], "stripe-resize", "approx-mid", None)
 
 
